@@ -77,9 +77,12 @@ def main(argv):
             t0 = time.time()
             r = sh([os.path.join(HERE, 'check'), c, tier], env=dict(env, VERIF_REPO=bad, VERIF_NO_EVIDENCE='1'))
             sigs = [ln.strip()[len('signature: '):] for ln in r.stdout.splitlines() if ln.strip().startswith('signature:')]
-            results[c] = {'tier': tier, 'exit': r.returncode, 'signatures': sigs[:8], 'wall_s': round(time.time() - t0, 1)}
-            ran.append(f'VERIF_REPO=<changed copy> ./check {c} {tier}: exit {r.returncode}')
-            if r.returncode == 2:
+            rc = r.returncode
+            if rc == 1 and not any(ln.startswith('VIOLATION property=') for ln in r.stdout.splitlines()):
+                rc = 3      # exit 1 without a VIOLATION line is a harness failure, not a detection
+            results[c] = {'tier': tier, 'exit': rc, 'signatures': sigs[:8], 'wall_s': round(time.time() - t0, 1)}
+            ran.append(f'VERIF_REPO=<changed copy> ./check {c} {tier}: exit {rc}')
+            if rc == 2:
                 results[c]['inconclusive'] = [ln for ln in r.stdout.splitlines() if ln.startswith('INCONCLUSIVE')][:3]
         print(f'SEED {prop}-{name}: confirmed={confirmed} demo clean/changed={d0.returncode}/{d1.returncode} tests={"pass" if tests_ok else "FAIL"} | ' +
               ' | '.join(f'{c}:rc={v["exit"]} {"; ".join(v["signatures"][:3])}' for c, v in results.items()))
